@@ -334,12 +334,12 @@ def dimension_reduction_fallback(name, seed, heuristic, tol_dr, eig_reg):
 
 
 # ------------------------------------------------------------------------------------------------ C12
-def run_once(name, seed, solve_it=True):
+def run_once(name, seed, solve_it=True, **solve_kw):
     spy = Spy().install()
     try:
         pep, h = models.build(name, seed)
         if solve_it:
-            t = solve(pep)
+            t = solve(pep, **solve_kw)
             return t, fingerprint(pep, spy.wrappers[-1])
         return None, None
     finally:
@@ -349,7 +349,9 @@ def run_once(name, seed, solve_it=True):
 def history(name, seed, hist):
     """hist: list of (template, seed, action) with action in build / solve / fail / abandon"""
     fails = []
-    t_ref, fp_ref = run_once(name, seed)
+    # a history with a crudely solved model (explicit solver options): model B then runs the same solver with ITS OWN (default) options
+    kw_b = {'solver': 'SCS'} if any(a == 'solve_crude' for _, _, a in hist) else {}
+    t_ref, fp_ref = run_once(name, seed, **kw_b)
     keep = []          # earlier models stay referenced (a notebook session): object addresses - hence id()-based hashes - of later models shift
     for (hn, hs, action) in hist:
         keep.append([object() for _ in range(1 + hs % 89)])
@@ -357,6 +359,8 @@ def history(name, seed, hist):
             keep.append(models.build(hn, hs))
         elif action == 'solve':
             run_once(hn, hs)
+        elif action == 'solve_crude':
+            run_once(hn, hs, solver='SCS', eps=5e-2, max_iters=20)
         elif action == 'fail':
             p, _ = models.build('T_unbounded', hs)
             solve(p)
@@ -368,7 +372,7 @@ def history(name, seed, hist):
                 p.set_performance_metric(h['points'][0])        # AssertionError mid-way: model abandoned
             except AssertionError:
                 pass
-    t, fp = run_once(name, seed)
+    t, fp = run_once(name, seed, **kw_b)
     if fp != fp_ref:
         fails.append(('C12', 'same_solver_input', 'solver input of the model differs after the history %s (constraints sent %s vs %s)' % (
             [(a, b) for a, _, b in hist], fp[1], fp_ref[1])))
@@ -665,6 +669,68 @@ def partitions(seed):
         if len(part.blocks_dict) != len(decomposed):
             fails.append(('C15', 'independent_partitions', 'decomposing a point in the second partition changed the first one'))
     return {'seed': seed, 'd': d, 'decomposed': len(decomposed), 'scenario': 'partition'}, fails
+
+
+def partition_realization(seed):
+    """max ||P_k x||^2 subject to ||x||^2 <= 1 is exactly 1 for coordinate-block projections: a real projection attains it (so every imposed relation must hold on
+    real projections) and orthogonality of different blocks forbids more (so all of them must be imposed) - whether the partition was declared through the PEP or
+    instantiated directly (the class is exported), and also when a block is itself decomposed again, blocks being requested in any order"""
+    import random
+    from PEPit import PEP, BlockPartition
+    from PEPit.point import Point
+    from .solve import expr_coeffs
+    rng = random.Random(seed)
+    d = rng.choice([2, 3, 4])
+    direct = seed % 2 == 1
+    again = (seed // 2) % 3 != 0
+    fails = []
+    spy = Spy().install()
+    try:
+        pep = PEP()
+        part = BlockPartition(d=d) if direct else pep.declare_block_partition(d=d)
+        x = pep.set_initial_point()
+        k0 = rng.randrange(d)
+        y = part.get_block(x, k0)
+        order = rng.sample(range(d), d)
+        if again:
+            for k in order:
+                part.get_block(y, k)
+        pep.set_initial_condition(x ** 2 <= 1)
+        pep.set_performance_metric(y ** 2)
+        tau = solve(pep)
+        info = {'scenario': 'partition-realization', 'seed': seed, 'd': d, 'declared': 'BlockPartition(d)' if direct else 'declare_block_partition', 'block': k0,
+                'block_decomposed_again_in_order': order if again else None, 'tau': tau}
+        if tau is None or abs(tau - 1) > 1e-4:
+            fails.append(('C15', 'projection_value', 'max ||P_%d x||^2 under ||x||^2 <= 1 with %d blocks is %r; coordinate-block projections give exactly 1' % (k0, d, tau)))
+        # a real coordinate partition of R^(2d): block k = coordinates 2k, 2k+1
+        v = np.array([rng.gauss(0, 1) for _ in range(2 * d)])
+        v = v / np.linalg.norm(v)
+        proj = lambda k, u: np.array([u[i] if i // 2 == k else 0. for i in range(2 * d)])
+        real = {x: v}
+        val = lambda p: sum((w * real[leaf] for leaf, w in p.decomposition_dict.items()), np.zeros(2 * d))
+        for p, blocks in part.blocks_dict.items():
+            rp = val(p)
+            for k, b in enumerate(blocks):
+                if b.get_is_leaf() and b not in real:
+                    real[b] = proj(k, rp)
+        leaves = Point.list_of_leaf_points
+        if any(l not in real for l in leaves):
+            fails.append(('C15', 'projection_realization', 'a leaf point of the model is neither the initial point nor a block of a decomposed point'))
+        else:
+            G = np.array([[real[a] @ real[b] for b in leaves] for a in leaves])
+            for kind, c in spy.wrappers[-1].sent:
+                if kind != 'scalar':
+                    continue
+                Gw, Fw, cst = expr_coeffs(c.expression)
+                if np.any(Fw != 0):
+                    continue            # objective <= metric
+                r = float(np.sum(Gw * G) + cst)
+                if (c.equality_or_inequality == 'equality' and abs(r) > 1e-9) or r > 1e-9:
+                    fails.append(('C15', 'projection_realization', 'a relation sent to the solver does not hold for real coordinate-block projections (value %.3g, %s)' % (r, c.equality_or_inequality)))
+                    break
+    finally:
+        spy.remove()
+    return info, fails
 
 
 # ------------------------------------------------------------------------------------------------ C11
